@@ -12,7 +12,7 @@ from ..loops import dotted
 from ..nf import NF, Scope, Poly
 from ..repo import Repo, loc, short, AnalysisError, bind_call, positional_params
 from ..resolve import Resolver
-from ..sem import TREE_MAPS, leaf_application, result_position
+from ..sem import TREE_MAPS, leaf_application, result_position, result_position_def
 
 EXPLANATION = (
     "R1 decides the dataflow of the two helpers in target_net.py by def-use inlining into a normal form "
@@ -56,6 +56,25 @@ CADENCE = {
 }
 
 
+CALLER_GROUPS = [("rl_blox.algorithm.td7._train_step", "rl_blox.algorithm.td7.train_td7")]
+
+
+def _foreign_helper_sites(repo, res):
+    """New functions / methods (not part of the frozen surface, not fully inlined) that call a target-update helper."""
+    from ..expand import load_known
+    known = load_known()
+    transparent = repo.transparent_helpers()
+    out = []
+    for qual, f2, mi2 in repo.all_functions():
+        if qual in known or qual in transparent or "<locals>" in qual or qual in HELPERS:
+            continue
+        for n in ast.walk(f2):
+            if isinstance(n, ast.Call) and isinstance(n.func, (ast.Name, ast.Attribute)) and repo.resolve_expr(mi2, n.func) in HELPERS:
+                out.append(qual)
+                break
+    return out
+
+
 def _helper_calls(repo, res, fn, cfg):
     """[(node id, call, kind, (online expr, target expr), order key)].  A helper call inside
     ``for a, b in ((x1, y1), (x2, y2)): helper(a, b)`` is unrolled over the literal pairs (enumerated idiom)."""
@@ -69,6 +88,11 @@ def _helper_calls(repo, res, fn, cfg):
                 continue
             t = res.resolve(c.func, mi, cfg, n.id)
             if not (t and t.qual in HELPERS):
+                # the hard copy written out: nnx.update(target, nnx.state(online))
+                if isinstance(c.func, (ast.Name, ast.Attribute)) and repo.resolve_expr(mi, c.func) == "flax.nnx.update" and len(c.args) == 2 and not c.keywords \
+                        and isinstance(c.args[1], ast.Call) and isinstance(c.args[1].func, (ast.Name, ast.Attribute)) and repo.resolve_expr(mi, c.args[1].func) == "flax.nnx.state" \
+                        and len(c.args[1].args) == 1 and not c.args[1].keywords and getattr(fn, "name", "") not in ("soft_target_net_update", "hard_target_net_update"):
+                    out.append((n.id, c, "hard", (c.args[1].args[0], c.args[0]), (c.lineno, 0)))
                 continue
             kind = HELPERS[t.qual]
             args = list(t.prefix) + list(c.args)
@@ -272,8 +296,20 @@ def run(ck, repo: Repo, tier: str):
         if q.endswith("train_td7"):
             calls = [c for c in calls]
         n_calls += len(calls)
+        if len(calls) != n_expected:
+            # target updates that moved between a routine and its step function, or that go through an object's method / a helper
+            # that could not be expanded, cannot be attributed to the documented cadence table: undecided, not a violation
+            group = [g for g in CALLER_GROUPS if q in g]
+            if group:
+                tot = sum(len(_helper_calls(repo, res, repo.func(x), res.cfg_of(repo.func(x)))) for x in group[0])
+                if tot == sum(CADENCE[x][3] for x in group[0]):
+                    raise AnalysisError(f"{q}: the target updates are distributed differently over {[x.rsplit('.', 1)[1] for x in group[0]]} than documented (unrecognised form)")
+            if len(calls) < n_expected and (_foreign_helper_sites(repo, res) or any(cq_.startswith(q) or True for _c, cq_ in getattr(repo, "expand_failed", []) if _c == q)):
+                raise AnalysisError(f"{q}: {len(calls)} of {n_expected} documented target updates are visible; others go through code that cannot be attributed (unrecognised form)")
         ck.ob("R4-cadence", q, "helper-count", len(calls) == n_expected, f"{len(calls)} target-update call(s), documented {n_expected}",
               "" if len(calls) == n_expected else "a documented target update is missing or an undocumented one was added", loc(mi, fn))
+        if len(calls) != n_expected:
+            continue
         targets = []
         for nid, c, k, (oe, te), okey in calls:
             where = loc(mi, c)
@@ -287,6 +323,38 @@ def run(ck, repo: Repo, tier: str):
             missing = [p for p in required if not any(_match(g, p) for g in gs)]
             extra = [g for g in gs if not any(_match(g, p) for p in required + allowed)]
             ok = not missing and not extra
+            if not ok:
+                # a guard that is not one of the documented / allowed forms is evidence of a wrong cadence only when it is written over the
+                # cadence parameter itself (e.g. `step % policy_delay == 1`); any other unknown condition leaves the cadence undecided
+                import re as _re
+                pnames = set(positional_params(fn)) | {a_.arg for a_ in fn.args.kwonlyargs}
+                OPS = {"Eq", "NotEq", "Lt", "LtE", "Is", "IsNot", "In", "NotIn", "and", "or", "not", "mod", "None", "True", "False"}
+
+                def name_ok(nm, depth=0):
+                    if nm in OPS or nm in pnames:
+                        return True
+                    ds_ = [d for n_ in cfg.nodes for d in n_.defs if d.name == nm]
+                    if not ds_ or depth > 4:
+                        return nm in ("assess_performance_and_checkpoint",)
+                    for d in ds_:
+                        if d.kind in ("param", "for", "aug", "with"):
+                            continue
+                        if result_position_def(cfg, d) is not None:
+                            continue      # a position of a call's result
+                        if d.kind == "assign" and d.value is not None and not isinstance(d.value, ast.Constant) or (d.kind == "assign" and isinstance(d.value, ast.Constant) and not isinstance(d.value.value, bool)):
+                            v_ = d.value
+                            calls_ok = all(isinstance(c_.func, ast.Name) and c_.func.id in ("max", "min", "int", "len", "abs", "float") for c_ in ast.walk(v_) if isinstance(c_, ast.Call))
+                            if calls_ok and not any(isinstance(x_, (ast.Attribute, ast.Subscript)) for x_ in ast.walk(v_)) \
+                                    and all(name_ok(x_.id, depth + 1) for x_ in ast.walk(v_) if isinstance(x_, ast.Name) and x_.id not in ("max", "min", "int", "len", "abs", "float")):
+                                continue
+                        return False
+                    return True
+
+                def understood(g):
+                    return all(name_ok(nm) for nm in set(_re.findall(r"[A-Za-z_][A-Za-z_0-9]*", g)))
+                unknown = [g for g in extra if not understood(g)]
+                if unknown:
+                    raise AnalysisError(f"{q}: update {label} is guarded by {unknown} (cannot relate to the documented cadence)")
             why = ""
             if missing:
                 why = f"not guarded by the documented cadence {missing} (guards: {gs})"
@@ -318,6 +386,8 @@ def run(ck, repo: Repo, tier: str):
         for kind_s, call, path, op in eff.sites.get(q, []):
             if kind_s.startswith("call ") and kind_s.split(" ", 1)[1] in HELPERS:
                 continue
+            if any(call is hc_ for _n, hc_, _o, _t, _oe, _te, _k in targets):
+                continue      # the hard copy written out (nnx.update(target, nnx.state(online))) is a recognised target update
             try:
                 nid = cfg.node_of(call).id
             except KeyError:
@@ -360,8 +430,15 @@ def run(ck, repo: Repo, tier: str):
         for n in ast.walk(f2):
             if isinstance(n, ast.Call) and isinstance(n.func, (ast.Name, ast.Attribute)):
                 r = repo.resolve_expr(mi2, n.func)
+                if r in HELPERS and qual not in _KNOWN():
+                    raise AnalysisError(f"{qual}: a new function / method calls a target-update helper and is not expanded at its call sites (cannot attribute the update to a cadence)")
                 if r in HELPERS:
                     ck.ob("R4-cadence", qual, "unregistered-call-site", False, short(n, 70), "target-update helper called from a routine with no documented cadence entry", loc(mi2, n))
+
+
+def _KNOWN():
+    from ..expand import load_known
+    return load_known()
 
 
 def _stable(s):
@@ -462,6 +539,7 @@ def _optax_oracle(ck, nf):
 _T = "rl_blox/blox/target_net.py"
 _A = "rl_blox/algorithm/"
 MUTANTS = [
+    {"id": "c06-td7-hard-copy-written-out-swapped", "file": _A + "td7.py", "rule": "R", "find": "                    hard_target_net_update(policy, checkpoint)", "replace": "                    nnx.update(policy, nnx.state(checkpoint))"},
     {"id": "c06-soft-treemap-swapped", "file": _T, "rule": "R1", "edits": [("import optax\n", "import optax\nimport jax\n"), ("optax.incremental_update(params, target_params, tau)", "jax.tree.map(lambda p, t: tau * t + (1 - tau) * p, params, target_params)")]},
     {"id": "c06-soft-treemap-trees-swapped", "file": _T, "rule": "R1", "edits": [("import optax\n", "import optax\nimport jax\n"), ("optax.incremental_update(params, target_params, tau)", "jax.tree.map(lambda p, t: tau * p + (1 - tau) * t, target_params, params)")]},
     {"id": "c06-soft-kw-swapped", "file": _T, "rule": "R1", "find": "optax.incremental_update(params, target_params, tau)", "replace": "optax.incremental_update(old_tensors=params, new_tensors=target_params, step_size=tau)"},
@@ -488,6 +566,7 @@ MUTANTS = [
     {"id": "c06-ddqn-extra-helper", "file": _A + "ddqn.py", "rule": "R4", "find": "            if step % target_update_frequency == 0:\n                hard_target_net_update(q_net, q_target_net)", "replace": "            if step % target_update_frequency == 0:\n                hard_target_net_update(q_net, q_target_net)\n        if terminated:\n            hard_target_net_update(q_net, q_target_net)"},
 ]
 BENIGN = [
+    {"id": "c06-b-td7-hard-copy-written-out", "file": _A + "td7.py", "find": "                    hard_target_net_update(policy, checkpoint)", "replace": "                    nnx.update(checkpoint, nnx.state(policy))"},
     {"id": "c06-b-soft-treemap", "file": _T, "edits": [("import optax\n", "import optax\nimport jax\n"), ("optax.incremental_update(params, target_params, tau)", "jax.tree.map(lambda p, t: t + tau * (p - t), params, target_params)")]},
     {"id": "c06-b-td7-early-return", "file": _A + "td7.py", "edits": [("    if epoch % target_delay == 0:\n        hard_target_net_update(policy.actor, policy_target.actor)", "    if epoch % target_delay != 0:\n        return metrics, epochs\n    if True:\n        hard_target_net_update(policy.actor, policy_target.actor)")]},
     {"id": "c06-b-td7-done-alias", "file": _A + "td7.py", "edits": [("        next_obs, reward, termination, truncated, info = env.step(action)\n", "        next_obs, reward, termination, truncated, info = env.step(action)\n        done = termination or truncated\n"), ("            if (termination or truncated) and use_checkpoints:", "            if done and use_checkpoints:")]},
